@@ -149,21 +149,27 @@ def _to_float(val):
         return float("nan")
 
 
-def check(constraints, name="query", timeout_ms=20000, enc=None, logic="QF_NRA", want_model=True, tactic=None):
-    """Discharge one satisfiability query. Returns (verdict, env or None)."""
+def check(constraints, name="query", timeout_ms=20000, enc=None, logic="QF_NRA", want_model=True, tactic=None, retry=True):
+    """Discharge one satisfiability query. Returns (verdict, env or None).
+    An `unknown` that is a timeout is retried once with four times the budget (machine load must not turn into a verdict)."""
     t0 = time.time()
-    if tactic:
-        s = z3.Tactic(tactic).solver()
-    else:
-        s = z3.Solver()
-    s.set("timeout", int(timeout_ms))
-    for c in constraints:
-        s.add(c)
-    r = s.check()
-    verdict = str(r)
-    env = None
-    if verdict == "sat" and want_model and enc is not None:
-        env = _model_env(s.model(), enc)
+    budgets = [int(timeout_ms)] + ([4 * int(timeout_ms)] if retry else [])
+    verdict, env = "unknown", None
+    for k, budget in enumerate(budgets):
+        if tactic:
+            s = z3.Tactic(tactic).solver()
+        else:
+            s = z3.Solver()
+        s.set("timeout", budget)
+        for c in constraints:
+            s.add(c)
+        t1 = time.time()
+        r = s.check()
+        verdict = str(r)
+        if verdict == "sat" and want_model and enc is not None:
+            env = _model_env(s.model(), enc)
+        if verdict != "unknown" or (time.time() - t1) * 1000 < 0.8 * budget:
+            break
     dt = time.time() - t0
     QUERY_LOG.append(dict(name=name, verdict=verdict, seconds=round(dt, 4), logic=logic,
                           nvars=len(enc.zvars) if enc else None, nconstraints=len(constraints)))
